@@ -159,11 +159,12 @@ func (parser *syslogParser) Parse(input []byte, timestamp time.Time) *base.LogRe
 	}
 
 	// all the rest of message goes to the "log" message field
-	if len(remaining) > defs.InputLogMaxMessageBytes {
+	truncated := len(remaining) > defs.InputLogMaxMessageBytes
+	if truncated {
 		parser.onOverflow(input)
 		remaining = remaining[:defs.InputLogMaxMessageBytes]
 	}
-	if record.RawLength >= defs.InputLogMaxRecordBytes {
+	if truncated || record.RawLength >= defs.InputLogMaxRecordBytes {
 		remaining = util.StringFromBytes(
 			util.CleanUTF8(util.BytesFromString(remaining)),
 		)
